@@ -180,4 +180,42 @@ theorem C13_fixed4_roundtrip (neg : Bool) (k : Nat) : parseFixed4 (renderFixed4 
 example : renderFixed4 true 0 = [45, 48, 46, 48, 48, 48, 48] ∧ parseFixed4 [45, 48, 46, 48, 48, 48, 48] = some (true, 0) ∧
     parseFixed4 [49, 46, 53] = none := by decide
 
+/-! ### two decimals -/
+
+theorem parse_frac2 (r : Nat) (hr : r < 100) : parseNat (frac2 r) = some r := by
+  simp only [parseNat, frac2, List.isEmpty_cons, Bool.false_eq_true, if_false, List.foldl_cons, List.foldl_nil, Option.bind_some]
+  have d3 : isDigit (r / 10 % 10 + 48) = true := by simp [isDigit]; omega
+  have d4 : isDigit (r % 10 + 48) = true := by simp [isDigit]; omega
+  simp only [d3, d4, if_true, Option.bind_some, Nat.add_sub_cancel]
+  congr 1
+  omega
+
+/-- **C13, a number written with two decimals reads back** (the values of the scorer block) -/
+theorem C13_fixed2_roundtrip (neg : Bool) (k : Nat) : parseFixed2 (renderFixed2 neg k) = some (neg, k) := by
+  obtain ⟨c, r, hcr, hc⟩ := renderNat_head (k / 100)
+  have hdig := renderNat_digits (k / 100)
+  obtain ⟨t1, t2⟩ := takeWhile_digits (renderNat (k / 100)) (frac2 (k % 100)) hdig
+  have hp1 := parse_render_nat (k / 100)
+  have hp2 := parse_frac2 (k % 100) (Nat.mod_lt _ (by decide))
+  have hlen : (frac2 (k % 100)).length = 2 := rfl
+  cases neg with
+  | true =>
+    have hs : signBody (45 :: (renderNat (k / 100) ++ 46 :: frac2 (k % 100))) = (true, renderNat (k / 100) ++ 46 :: frac2 (k % 100)) := rfl
+    simp only [renderFixed2, if_true, List.cons_append, List.nil_append, parseFixed2, hs, t1, t2, hlen, beq_self_eq_true, hp1, hp2]
+    congr 2
+    omega
+  | false =>
+    have hs : signBody (renderNat (k / 100) ++ 46 :: frac2 (k % 100)) = (false, renderNat (k / 100) ++ 46 :: frac2 (k % 100)) := by
+      rw [hcr]
+      simp only [List.cons_append]
+      unfold signBody
+      split
+      · rename_i heq; simp at heq; exact absurd heq.1 hc
+      · rfl
+    simp only [renderFixed2, Bool.false_eq_true, if_false, List.nil_append, parseFixed2, hs, t1, t2, hlen, beq_self_eq_true, if_true, hp1, hp2]
+    congr 2
+    omega
+
+example : renderFixed2 true 35 = [45, 48, 46, 51, 53] ∧ parseFixed2 [45, 48, 46, 51, 53] = some (true, 35) := by decide
+
 end Verif.Num
